@@ -20,7 +20,7 @@ META = {
                    "operands are not written (one named exception: the final rescale of amen_divide's own cores). Does NOT decide the accuracy "
                    "of the quotient (inherits the convergence behaviour of AMEn).",
     "assumptions": ["real operands", "generic sizes: rank families at different positions / of different trains are independent"],
-    "floors": {"ZERO-NORM": 6, "ROUTING": 3, "E5-CHAIN": 12, "IFACE-TYPE": 40, "DEF-ATTR": 10},
+    "floors": {"ENRICH-WIDTH": 1, "ZERO-NORM": 6, "ROUTING": 3, "E5-CHAIN": 12, "IFACE-TYPE": 40, "DEF-ATTR": 10},
 }
 ANCHORS = ["_division.amen_divide", "_division.local_product", "_division.LinearOp.matvec", "_division.LinearOp.apply_prec", "_division.compute_phi_fwd_A",
            "_division.compute_phi_bck_A", "_division.compute_phi_fwd_rhs", "_division.compute_phi_bck_rhs", "_tt_base.TT.__truediv__",
@@ -121,6 +121,8 @@ def check(model: Model, tier: str):
                           ("operand not written" + (f" (named exception: {named[0].construct} - zero-sweep path only, multiplication by one; {exc_why})" if named else ""))))
     from ..normguard import rule_zero_norm, rule_arnoldi_seed
     obs += rule_zero_norm(model, "_division.amen_divide")
+    from ..normguard import rule_enrich_width
+    obs += rule_enrich_width(model, "_division.amen_divide")
     fs = [model.func(a) for a in ANCHORS]
     exc = {("_division.amen_divide", "sig:=binop | =call:datetime.datetime.now"): "verbose timing only", ("_division.amen_divide", "sig:=binop | =call:datetime.datetime.now"): "verbose timing only",
            ("_division.amen_divide", "sig:=binop | =call:datetime.datetime.now"): "verbose timing only", ("_division.amen_divide", "sig:for:range(nswp)"): "read only in the verbose report after a zero-sweep run",
